@@ -221,7 +221,11 @@ type unitResult struct {
 func runCheck(id string, o runOpts) int {
 	t0 := time.Now()
 	hdir := filepath.Join(verifDir, "harness", id)
-	data, err := os.ReadFile(filepath.Join(hdir, "check.json"))
+	cj := filepath.Join(hdir, "check.json")
+	if x := os.Getenv("SYMGO_CHECKJSON"); x != "" && os.Getenv("SYMGO_REPO") != "" { // debug only (evidence goes to SYMGO_OUT)
+		cj = x
+	}
+	data, err := os.ReadFile(cj)
 	if err != nil {
 		fmt.Fprintln(os.Stderr, "cannot read check.json:", err)
 		return 2
